@@ -5,5 +5,6 @@ CONSTANTS
   Durations = {0, 5, 3600, 3601, 86400}
   Offsets <- OffsetsQuick
   MaxAlter = 1
-INVARIANTS TypeOK Sound Complete RevealsUser Emit
+  WideNeighbours = FALSE
+INVARIANTS TypeOK Sound Complete RevealsUser ReadThenValidate Emit
 CHECK_DEADLOCK FALSE
